@@ -6,7 +6,7 @@ from ..astutil import call_attr, dotted, statements, calls
 from ..cfg import CFG
 from ..facts import Facts, fact
 from ..report import control
-from ..sym import cond_literals
+from ..sym import cond_literals, Env, sym
 from ..strfmt import str_parts, consts, skeleton
 from .. import variants
 
@@ -222,10 +222,24 @@ def check(ctx):
     ctx.require(n_m >= 1, "shift_window: the mirrored BeforeStart offset was not found")
     Fw = Facts(sw)
     src = [ast.unparse(s) for s in statements(sw.node)]
-    ctx.check("l.append(BeforeStart(idx.ready_at + (len(idx_list) - i - 1)))" in src or any(s.startswith("l.append(BeforeStart(idx.ready_at + (len(") for s in src), R, sw, "marker aged",
+    # by role: inside the loop `for i, idx in enumerate(L)` the list that collects the shifted window receives either
+    # BeforeStart(idx.ready_at + (len(L) - i - 1)) or idx + i * sustain_count * trial_size
+    ok_marker = ok_shift = False
+    for lp in [s_ for s_ in statements(sw.node) if isinstance(s_, ast.For) and isinstance(s_.iter, ast.Call) and dotted(s_.iter.func) == "enumerate" and
+               isinstance(s_.target, ast.Tuple) and len(s_.target.elts) == 2 and all(isinstance(e_, ast.Name) for e_ in s_.target.elts)]:
+        i_, x_ = lp.target.elts[0].id, lp.target.elts[1].id
+        L_ = ast.unparse(lp.iter.args[0])
+        for c_ in ast.walk(lp):
+            if isinstance(c_, ast.Call) and isinstance(c_.func, ast.Attribute) and c_.func.attr == "append" and len(c_.args) == 1:
+                a_ = c_.args[0]
+                if isinstance(a_, ast.Call) and dotted(a_.func) == "BeforeStart" and len(a_.args) == 1:
+                    ok_marker = ok_marker or str(sym(a_.args[0], Env())) == str(sym(ast.parse("%s.ready_at + (len(%s) - %s - 1)" % (x_, L_, i_), mode="eval").body, Env()))
+                else:
+                    ok_shift = ok_shift or str(sym(a_, Env())) == str(sym(ast.parse("%s + %s * sustain_count * trial_size" % (x_, i_), mode="eval").body, Env()))
+    ctx.check(ok_marker, R, sw, "marker aged",
               "a not-yet-available input stays a BeforeStart marker, aged by its distance to the end of the window", "the BeforeStart branch of shift_window changed")
-    ctx.check("l.append(cast(int, idx) + i * sustain_count * trial_size)" in src, R, sw, "shift", "position i of the window is shifted by i sustained trials",
-              "the index shift of shift_window changed: %s" % [s for s in src if s.startswith("l.append(cast")])
+    ctx.check(ok_shift, R, sw, "shift", "position i of the window is shifted by i sustained trials",
+              "the index shift of shift_window changed")
     ctx.check("sublist_size = len(idx_list) // argc" in src and "argc = len(window.factors)" in src and "if window.width == 1:\n    return indices" in src, R, sw, "per-factor windows",
               "the flat argument tuple is cut into one window per factor; width-1 windows are not shifted", "the per-factor split of shift_window changed")
 
